@@ -45,7 +45,14 @@ def _writeTracebackMessage(logger, typ, exception, traceback, extract_fields=Tru
     """
     msg = TRACEBACK_MESSAGE(reason=exception, traceback=traceback, exception=typ)
     if extract_fields:
-        msg = msg.bind(**_error_extraction.get_fields_for_exception(logger, exception))
+        fields = _error_extraction.get_fields_for_exception(logger, exception)
+        # The message's own fields win over extracted fields of the same name,
+        # as they do in a failed action's end message; otherwise an extractor
+        # returning e.g. "exception" makes this message unserializable, and
+        # logging that failure recurses without bound.
+        for key in ("reason", "traceback", "exception"):
+            fields.pop(key, None)
+        msg = msg.bind(**fields)
     msg.write(logger)
 
 
